@@ -11,14 +11,14 @@ REQUIRED_THEOREMS = ["Gv.Props.C14." + n for n in [
     # every counting statistic (Model/Stats.lean: the Go loops) equals its naive definition (Spec/Stats.lean), all inputs
     "countsBy_eq_countTable", "charStats_eq_spec", "uniqueCharacters_eq_spec", "charStatsSeq_eq_spec",
     "charStatsSite_eq_spec", "charStatsSite_row_order_independent", "nbVariableSites_eq_spec",
-    "informativeSites_eq_spec", "avgAllelesCounts_eq_spec", "countDifferences_panic_iff", "countDifferences_all_eq_spec",
+    "informativeSites_eq_spec", "avgAllelesCounts_eq_spec", "countDifferences_empty", "countDifferences_all_eq_spec",
     "countDifferences_counts_eq_spec", "numGapsUnique_eq_spec", "numMutationsUnique_eq_spec",
     "equalOrCompatible_is_shared_base", "nt2IndexIUPAC_defined_iff", "numMutationsVsRef_eq_spec",
     "listMutationsVsRef_eq_spec", "wildcard_or_compatible_is_no_substitution", "entropy_eq_spec",
     # MaxCharStats / Consensus on the actual count entries of a column (first-appearance order = some map order)
     "countUpper_eq_tally", "countUpper_keys_nodup", "countUpper_lookup", "countUpper_pos",
     "maxCharSite_order_independent", "maxCharSite_is_argmax",
-    "countProfile_panic_iff", "countProfile_eq_spec", "profileCount_eq_spec"]]
+    "countProfile_panic_iff", "countProfile_eq_spec", "profileCount_eq_spec", "profileCountsAt_error_iff"]]
 LEVEL_TEXT = ("Lean theorems: MaxCharStats' selection loop returns the same result for EVERY iteration order of the count entries "
               "(Go map order = arbitrary permutation) and equals the naive argmax with the smallest-byte tie rule, also stated on the actual "
               "count entries of a column (distinct keys, naive counts, positive); every counting "
@@ -37,14 +37,14 @@ RULE = ("alignments of 1..6 rows x 1..6 columns over small alphabets with ties f
 PARTIAL = ["Entropy: the occurrence counts, the summation order and the error/NaN cases are proved (entropy_eq_spec); the float sum itself "
            "(math.Log) is compared with tolerance 1e-12, rounding is not modelled; AvgAllelesPerSite: the two integer counters are "
            "proved, the float64 quotient is compared with tolerance",
-           "Pssm, and the profile-dependent outputs (numnew, numboth) of the unique gap / mutation counters, are exercised by the "
-           "harness for determinism only, not modelled (the count profile itself and Count(r, site) are modelled and proved); "
-           "CountProfile.CountsAt(i) tests `i > len(p.counts)`, so i = len(p.counts) is an index panic instead of an error (a "
-           "character index, not a site index: outside the property text)",
+           "Pssm is not modelled: the harness checks that repeated calls agree and, without normalisation / pseudo-count / "
+           "logarithm, that the entries are the naive per-site counts of the alphabet characters (tag pssm)",
+           "the profile-dependent outputs (numnew, numboth) of the unique gap / mutation counters have naive definitions in "
+           "Spec/Stats.lean that serve as model and predicate (tag uniquesprof); no Lean theorem about the Go loops with a profile",
            "the model is stated for ASCII residues: CharStats / InformativeSites index 130-entry slices with unicode.ToUpper(rune) "
            "(bytes >= 130 panic in Go; only NumMutationsUniquePerSequence models that panic explicitly)",
-           "CountDifferences on an alignment without any sequence panics in Go (make([]map[string]int, -1)): modelled as it is "
-           "(theorem countDifferences_panic_iff) and exercised (tag countdiffs-empty); the property text does not speak about it"]
+           "CountDifferences on an alignment without sequences and CountProfile.CountsAt(len) were run-time panics: repaired "
+           "(fix: commits), the models follow the repaired code (countDifferences_empty, profileCountsAt_error_iff)"]
 
 NT = "ACGTacgNn-R*."
 AA = "ARNDXx-*KLkl"
@@ -66,6 +66,16 @@ def rand_al(rng, alpha):
         c = rng.choice("-N" if alpha == 1 else "-X")
         rows = [(nm, s[:j] + c + s[j + 1:]) for nm, s in rows]
     return rows, n, L
+
+
+def prof_al(rng, alpha, L):
+    """a second alignment for the count profile: same number of sites (1 in 8: another one), own symbols"""
+    sym = AA if alpha == 0 else NT
+    if rng.random() < 0.125:
+        L = max(1, L + rng.choice([-1, 1]))
+    k = rng.choice([2, 3, len(sym)])
+    sub = rng.sample(sym, k)
+    return [("p%d" % i, "".join(rng.choice(sub) for _ in range(L))) for i in range(rng.randint(1, 4))]
 
 
 def gen(rng, tier):
@@ -91,6 +101,19 @@ def gen(rng, tier):
         # count profile: a character of the alignment or another one, site in [-1, L]
         ch = rng.choice([ord(rng.choice(rng.choice(rows)[1])), ord(rng.choice(NT + AA)), rng.choice([0, 129, 130, 200])])
         yield Case("profile", [alpha, rs, ch, rng.choice([-1, 0, L - 1, L, rng.randint(0, L)])], ch < 130, "profile")
+        # unique gaps / mutations with a count profile built from a second alignment (same length, sometimes not)
+        yield Case("uniquesprof", [alpha, rs, rows_str(prof_al(rng, alpha, L))], n > 2, "uniquesprof")
+        # Pssm: repeated calls agree; plain counts without normalisation
+        lg, ps, nm = rng.choice([(0, "0", 0), (0, "0", 0), (rng.randint(0, 1), rng.choice(["0", "1/2", "1"]), rng.randint(0, 4))])
+        yield Case("pssm", [alpha, rs, lg, ps, nm, 20], True, "pssm")
+    # columns with several gaps that the profile does not have (every row's `numnew` must count them)
+    for _ in range(N // 2):
+        alpha = rng.choice([0, 1])
+        n, L = rng.randint(3, 6), rng.randint(1, 5)
+        sym = "ACG-" if alpha == 1 else "ARN-"
+        rows = [("s%d" % i, "".join(rng.choice(sym + "---") for _ in range(L))) for i in range(n)]
+        prows = [("p%d" % i, "".join(rng.choice(sym[:3] + ("-" if rng.random() < 0.15 else "")) for _ in range(L))) for i in range(rng.randint(1, 3))]
+        yield Case("uniquesprof", [alpha, rows_str(rows), rows_str(prows)], True, "uniquesprof-gappy")
     # an alignment without sequences: CountDifferences evaluates make(.., -1) (modelled as a panic); the others return
     yield Case("countdiffs", [1, "_"], False, "countdiffs-empty")
     yield Case("uniques", [1, "_"], False, "uniques-empty")
@@ -145,6 +168,23 @@ def shrink(c):
                 yield Case("refmuts", [a[0], a[1][:j] + a[1][j + 1:], a[2][:j] + a[2][j + 1:]])
         return
     if c.op == "compat":
+        return
+    if c.op == "uniquesprof":
+        rows = [tuple(r.split(":", 1)) for r in a[1].split(",")]
+        prows = [tuple(r.split(":", 1)) for r in a[2].split(",")]
+        for i in range(len(rows)):
+            if len(rows) > 1:
+                yield Case(c.op, [a[0], rows_str(rows[:i] + rows[i + 1:]), a[2]])
+        for i in range(len(prows)):
+            if len(prows) > 1:
+                yield Case(c.op, [a[0], a[1], rows_str(prows[:i] + prows[i + 1:])])
+        L = len(rows[0][1])
+        if L > 1 and all(len(r[1]) == L for r in prows):
+            for j in range(L):
+                yield Case(c.op, [a[0], rows_str([(nm, q[:j] + q[j + 1:]) for nm, q in rows]),
+                                  rows_str([(nm, q[:j] + q[j + 1:]) for nm, q in prows])])
+        return
+    if c.op == "pssm":
         return
     if c.op == "profile":
         rows = [tuple(r.split(":", 1)) for r in a[1].split(",")]
